@@ -270,22 +270,22 @@ func Harness_C07_IndexValues() {
 	}
 }
 
-// Harness_C07_AppendedRow: the row the append path builds from a caller Record
+// c07AppendedRow: the row the append path builds from a caller Record
 // (recordToRow + normalizeMessageRow: default server timestamp, payload size and FNV-1a payload hash),
 // written exactly as stageMessageHeaderRow writes it (cached key writer, encodeMessageHeaderTo into an
 // exact-size buffer) and read back exactly as getRowBySeq reads it (decodeMessageHeader +
 // validateMaterializedMessageRow), is the appended record: same id, sender, client number, payload
-// bytes, channel identity, timestamp, size — and the reader accepts it.
-func Harness_C07_AppendedRow() {
+// bytes, channel identity, timestamp, size. Returns the reader's verdict.
+func c07AppendedRow(strMax, payloadLen int) error {
 	ck := ChannelKey(zzsym.String("ck", 1))
 	id := ChannelID{ID: zzsym.String("cid", 1), Type: zzsym.U8("ctype")}
 	l := &ChannelLog{channelEntry: &channelEntry{key: ck, id: id}}
 	seq := zzsym.U64("seq")
 	rec := Record{
 		ID:                zzsym.U64("id"),
-		ClientMsgNo:       c07Str("cno", 1, 2),
-		FromUID:           c07Str("uid", 1, 2),
-		Payload:           zzsym.Bytes("payload", c07Len("payloadlen", 1, 2)),
+		ClientMsgNo:       zzsym.String("cno", zzsym.Choice("cno.len", strMax+1)),
+		FromUID:           zzsym.String("uid", zzsym.Choice("uid.len", strMax+1)),
+		Payload:           zzsym.Bytes("payload", payloadLen),
 		SizeBytes:         zzsym.Int("size"),
 		ServerTimestampMS: zzsym.I64("ts"),
 	}
@@ -319,8 +319,27 @@ func Harness_C07_AppendedRow() {
 		"appended row read back differs from the record")
 	zzsym.Assert(got.PayloadSize == wantSize, "appended row payload size is neither SizeBytes nor len(payload)")
 	verr := validateMaterializedMessageRow(got)
-	// C07-F1: for an EMPTY payload normalizeMessageRow leaves PayloadHash 0, while the reader demands
-	// hashPayload(nil) (the FNV offset basis): the stored row is rejected as "payload hash mismatch".
-	zzsym.AssertKnown(verr == nil, "the reader rejects a row stored by the append path", "C07-F1", len(rec.Payload) == 0)
 	zzsym.Observe("app", got.MessageID, got.PayloadSize, uint64(got.ServerTimestampMS), uint64(len(got.Payload)), zzsym.B2U(verr == nil))
+	return verr
+}
+
+// Harness_C07_AppendedRow: NON-EMPTY payloads (1 byte; 1..2 thorough): the appended row is read back
+// identically and the reader accepts it (hard obligation).
+func Harness_C07_AppendedRow() {
+	strMax, n := 1, 1
+	if zzsym.Thorough() {
+		strMax, n = 2, 1+zzsym.Choice("payloadlen", 2)
+	}
+	verr := c07AppendedRow(strMax, n)
+	zzsym.Reach("appended-row-accepted")
+	zzsym.Assert(verr == nil, "the reader rejects a non-empty row stored by the append path")
+}
+
+// Harness_C07_AppendedRowEmptyPayload: known finding C07-F1, isolated in its own entry. For an EMPTY
+// payload normalizeMessageRow leaves PayloadHash 0, while the reader demands hashPayload(nil) (the
+// FNV offset basis): the row stored by the append path is rejected as "payload hash mismatch".
+func Harness_C07_AppendedRowEmptyPayload() {
+	verr := c07AppendedRow(1, 0)
+	zzsym.Reach("appended-empty-row")
+	zzsym.AssertKnown(verr == nil, "the reader rejects a row stored by the append path", "C07-F1", true)
 }
